@@ -450,7 +450,7 @@ def run(tier, t0):
     acc.sample({'pristine_state_hash': h0, 'distinct_states': len(seen)})
     rule = (f'event menu of {len(full)} public calls (12 faces x 10 triangles x inside/near-edge x lonlat_to_cell, cell_to_boundary, cell_to_lonlat + 18 other calls, mutate-the-result variants); '
             f'all histories of length 1 over the menu, length 2 over {len(menu2)} events, length 3 over {len(sub)} events (extended only from histories that reached a new library state), '
-            'and 4 (quick: 2) saturation histories (whole menu in different orders, then every event again); tie clusters (ring vertices of a cell x centres of the surrounding cells x ring / centre calls of the cluster's cells, all histories of length 2; polar clusters length 3); fault enumeration: 20 calls aborted by an injected exception at every line event '
+            'and 4 (quick: 2) saturation histories (whole menu in different orders, then every event again); tie clusters (ring vertices of a cell x centres of the surrounding cells x ring / centre calls of the cells of the cluster, all histories of length 2; polar clusters length 3); fault enumeration: 20 calls aborted by an injected exception at every line event '
             '(quick: first 3 / last 1 occurrences per site, 16 calls; thorough: first 40 / last 10) followed by 16 probe calls; a state is the canonical hash of everything reachable from the a5 module globals')
     return common.finish(PID, LEVEL, tier, acc, t0, rule, [
         'the oracle value of an event is the value of the single call in a process forked from a pristine import; 16 of them per run are compared with genuinely fresh interpreters',
